@@ -53,6 +53,9 @@ def as_int_term(t):
     if z3.is_app_of(t, z3.Z3_OP_UMINUS):
         p = as_int_term(t.arg(0))
         return None if p is None else -p
+    if z3.is_app_of(t, z3.Z3_OP_ITE):
+        a, b = as_int_term(t.arg(1)), as_int_term(t.arg(2))
+        return None if a is None or b is None else z3.If(t.arg(0), a, b)
     return None
 
 
@@ -436,6 +439,71 @@ def _triu(I, t, diagonal=0):
     return ST(t.shape, lambda *idx: sc_where(to_z3(idx[-1]) - to_z3(idx[-2]) >= diagonal, e(*idx), zero), t.dtype)
 
 
+@meth("tril")
+def _tril(I, t, diagonal=0):
+    zero = False if t.dtype == "bool" else 0
+    e = t.elem
+    return ST(t.shape, lambda *idx: sc_where(to_z3(idx[-1]) - to_z3(idx[-2]) <= diagonal, e(*idx), zero), t.dtype)
+
+
+POW = z3.Function("pow", z3.RealSort(), z3.IntSort(), z3.RealSort())
+
+
+def pow_axioms(I, base):
+    """assumed contract of torch.pow(base, e) for integer-valued e >= 0: pow(b, 0) = 1, pow(b, e + 1) = b * pow(b, e)"""
+    key = "pow_ax_" + str(base)
+    if not I.ex.ghost.get(key):
+        e = z3.Int("e_pow")
+        I.ex.assume(POW(base, 0) == 1)
+        I.ex.assume(z3.ForAll([e], z3.Implies(e >= 0, POW(base, e + 1) == base * POW(base, e))))
+        I.ex.ghost[key] = True
+        I.ex.ghost.setdefault("pows", []).append(base)
+
+
+def pow_instances(I, e):
+    return [z3.Implies(e >= 0, POW(b, e + 1) == b * POW(b, e)) for b in I.ex.ghost.get("pows", [])]
+
+
+def f_pow(I, base, exp):
+    if not isinstance(exp, ST) or isinstance(base, ST):
+        raise Unsupported("pow other than scalar ** tensor on symbolic shapes")
+    base = to_z3(base)
+    if z3.is_int(base):
+        base = z3.ToReal(base)
+    pow_axioms(I, base)
+    e_ = exp.elem
+
+    def elem(*idx):
+        x = e_(*idx)
+        i = as_int_term(to_z3(x) if not isinstance(x, (int, float)) else x) if not isinstance(x, float) else (z3.IntVal(int(x)) if x == int(x) else None)
+        if i is None:
+            raise Unsupported("pow with an exponent that is not integer-valued")
+        return POW(base, z3.simplify(i))
+
+    return ST(exp.shape, elem, "float")
+
+
+@meth("matmul", "mm")
+def _matmul(I, a, b):
+    """assumed contract of a matrix product over a symbolic inner extent T: out[i, n] = S(i, n, T) for the partial sums
+    S(i, n, 0) = 0, S(i, n, j + 1) = S(i, n, j) + a[i, j] * b[j, n]  (quantified; instance builder recorded in ghost['sums'])"""
+    if not (isinstance(a, ST) and isinstance(b, ST) and len(a.shape) == 2 and len(b.shape) == 2):
+        raise Unsupported("matmul other than matrix x matrix on symbolic shapes")
+    if not dim_eq(a.shape[1], b.shape[0]):
+        I.ex.oblige("matmul.inner_dimensions_agree", to_z3(a.shape[1]) == to_z3(b.shape[0]))
+    T = to_z3(a.shape[1])
+    S = _fresh("partial_sum", z3.IntSort(), z3.IntSort(), z3.IntSort(), z3.RealSort())
+    ae, be = a.elem, b.elem
+    term = lambda i, n, j: s_mul(I, ae(i, j), be(j, n))
+    step = lambda i, n, j: z3.Implies(j >= 0, S(i, n, j + 1) == S(i, n, j) + to_z3(term(i, n, j)))
+    base = lambda i, n: S(i, n, 0) == 0
+    i_, n_, j_ = z3.Ints("i_mm n_mm j_mm")
+    I.ex.assume(z3.ForAll([i_, n_], base(i_, n_)))
+    I.ex.assume(z3.ForAll([i_, n_, j_], step(i_, n_, j_)))
+    I.ex.ghost.setdefault("sums", []).append({"S": S, "base": base, "step": step, "T": T, "term": term})
+    return ST((a.shape[0], b.shape[1]), lambda i, n: S(to_z3(i), to_z3(n), T), "float")
+
+
 @meth("masked_fill")
 def _masked_fill(I, t, mask, value):
     return ST.ew(I, lambda m, x: sc_where(m, value, x), mask, t, dtype=t.dtype)
@@ -589,7 +657,7 @@ def dispatch(name, ct_fn):
     return f
 
 
-FUNCS.update({"torch.empty": f_empty, "torch.arange": f_arange, "torch.full": f_full, "torch.full_like": f_full_like, "torch.where": f_where, "torch.min": f_min})
+FUNCS.update({"torch.pow": f_pow, "torch.matmul": lambda I, a, b: _matmul(I, a, b), "torch.empty": f_empty, "torch.arange": f_arange, "torch.full": f_full, "torch.full_like": f_full_like, "torch.where": f_where, "torch.min": f_min})
 
 
 def stubs():
